@@ -864,6 +864,12 @@ class Gen:
             elif d == "recurse_visit":
                 self.do_recurse_visit(toks[1:])
                 i += 1
+            elif d == "recurse_fold":
+                self.do_recurse_visit(toks[1:], fold=True)
+                i += 1
+            elif d == "logos_table":
+                self.do_logos_table(toks[1:])
+                i += 1
             else:
                 raise SystemExit("unknown directive %s in %s" % (d, self.unit_path))
 
@@ -1078,7 +1084,26 @@ class Gen:
         self.items.append(it)
         return it
 
-    def do_recurse_visit(self, toks):
+    def do_logos_table(self, toks):
+        """//@logos_table <file> <Enum>: the #[token]/#[regex] attributes of the enum as a spec function + the lemma that
+        no attribute makes letter case matter (gen_tokens.py). The lemma is an item of its own."""
+        import gen_tokens
+        rel, enum = toks[0], toks[1]
+        s = src(rel)
+        tab, lem, variants = gen_tokens.generate(s.text, enum)
+        self.notes.append("tok_attrs: %d attributes of %d variants of %s extracted from %s" % (sum(len(a) for _, a in variants), len(variants), enum, rel))
+        self.emit(tab)
+        t = s.find_type(enum)
+        props = [p_ for p_ in self.props_default if p_ != "C04"]
+        it = Item(self.unit + "/lemma:keywords_match_in_any_case", "lemma", props, rel, [s.line_of(t["attr_start"]), s.line_of(t["end"] - 1)], sha(tab))
+        it.name = "lemma_keywords_match_in_any_case"
+        it.body_text = mask(lem)
+        it.clauses["ensures"].append("attrs_case_ok(tok_attrs(t), tok_attrs(t).len() as int)")
+        self.items.append(it)
+        self.emit("// ---- property lemma: no token attribute makes the letter case of the source matter")
+        it.gen_lines = self.emit(self.vac(lem, "lemma:keywords_match_in_any_case"))
+
+    def do_recurse_visit(self, toks, fold=False):
         """//@recurse_visit <dsl file> ... : the derive(Recurse)-generated `recurse_visit` of every type of the listed files,
         body from the compiler's macro expansion of the current tree, contract from the type definition (gen_recurse.py)."""
         import expand
@@ -1102,13 +1127,13 @@ class Gen:
             raise AnchorLost(str(e))
         if part:
             types = [td for i_, td in enumerate(types) if i_ % part[1] == part[0] - 1]
-        common, items = gen_recurse.generate(types, exp, None)
-        self.notes.append("recurse_visit bodies are taken from the compiler's macro expansion of the current tree (RUSTC_BOOTSTRAP=1 cargo rustc -p ironplc-dsl -- -Zunpretty=expanded); contracts are generated from the type definitions (fields, containers, #[recurse(ignore)])")
+        common, items = gen_recurse.generate_fold(types, exp) if fold else gen_recurse.generate(types, exp, None)
+        self.notes.append("recurse_visit / recurse_fold bodies are taken from the compiler's macro expansion of the current tree (RUSTC_BOOTSTRAP=1 cargo rustc -p ironplc-dsl -- -Zunpretty=expanded); contracts are generated from the type definitions (fields, containers, #[recurse(ignore)])")
         self.emit(common)
         for td, text, rewrites, ens in items:
-            ident = "%s::recurse_visit" % td["name"]
+            ident = "%s::%s" % (td["name"], "recurse_fold" if fold else "recurse_visit")
             it = Item(self.unit + "/" + ident, "method", list(self.props_default), td["rel"], td["lines"], sha(td["def_text"] + text))
-            it.name = "recurse_visit_of_" + td["name"]  # none of these functions calls another (they call the visitor)
+            it.name = ("recurse_fold_of_" if fold else "recurse_visit_of_") + td["name"]  # none of these functions calls another (they call the visitor)
             it.body_text = mask(text)
             for e in ens:
                 it.clauses["ensures"].append(e)
